@@ -223,6 +223,15 @@ def grids(tier, seed):
                 calls.append(['tyrvingScore', [g, age, ev, '%d.%02d' % (k // 100, k % 100)]])
                 if kind == 'race':
                     calls.append(['tyrvingScore', [g, age, ev, '%d.%d' % (k // 100, (k % 100) // 10)]])       # hand-timed
+        # the "or both refuse" half: ages just outside the columns of the row, unknown events and genders
+        k = max(1, C11.ty_kmax(kind, pargs, ages[0]) // 2)
+        for age in (ages[0] - 1, ages[0] - 2, ages[0] - 5, ages[-1] + 1, ages[-1] + 2, 0, -1, 100):
+            calls.append(['tyrvingScore', [g, age, ev, k / 100]])
+            calls.append(['tyrvingScore', [g, age, ev, '%d.%02d' % (k // 100, k % 100)]])
+    for g, ev in [('M', 'XYZ'), ('F', '101'), ('X', '100'), ('', 'HJ'), ('M', '')]:
+        calls.append(['tyrvingScore', [g, 15, ev, 12.5]])
+    for ct, ev in [('QKNONE', '100'), ('QKSEC', 'XYZ'), ('', '')]:
+        calls.append(['qkidsScore', [ct, ev, 12.5]])
     for ct in sorted(qk):
         for ev, row in qk[ct].items():
             kmax = int(100 * (max(row[1], row[2]) * 2 + 20))
